@@ -275,6 +275,11 @@ func (m *Model) Apply(e string) string {
 		t := m.txs[p[2]]
 		m.crafted[p[2]] = true
 		g := m.W.Genesis
+		if len(p) > 3 {
+			// Z:i:label:k - sealed on the k-th produced vertex instead (siblings, deeper side branches)
+			k, _ := strconv.Atoi(p[3])
+			g = m.produced[k]
+		}
 		v := m.W.Craft(m.actor("M"), t, g.Hash, g.Hash, g.Weight+1)
 		m.produced = append(m.produced, v)
 		m.delivered[fmt.Sprintf("%d/%d", i, len(m.produced)-1)]++
